@@ -1,7 +1,8 @@
 #!/bin/bash
 # run checks against a single-hunk variant of a seeded change: variant.sh <worktree> <patchfile> <check...>
 WT=$1; P=$2; shift 2
-cd $WT && git diff > /tmp/variant-full.diff && git checkout -- . && git apply $P || { echo "apply failed"; exit 2; }
+FULL=/tmp/variant-full-$(basename $WT).diff
+cd $WT && git diff > $FULL && git checkout -- . && git apply $P || { echo "apply failed"; exit 2; }
 cd /verif
 for c in "$@"; do VERIF_REPO=$WT ./check $c quick 2>&1 | grep -v KNOWN-FINDING | cut -c1-230 | head -4; echo "check $c exit=${PIPESTATUS[0]}"; done
-cd $WT && git checkout -- . && git apply /tmp/variant-full.diff
+cd $WT && git checkout -- . && git apply $FULL; rm -f $FULL
